@@ -369,7 +369,14 @@ func (t *Tables) Project(root, home string) M {
 				dirs = append(dirs, t.PathName(r))
 				dg = append(dg, "D "+string(r))
 				walk(full, r)
-			} else if e.Type().IsRegular() {
+			} else if e.Type().IsRegular() || e.Type()&os.ModeSymlink != 0 {
+				// (a symbolic link to a regular file is a file with the bytes every reader gets through it; a link to
+				// anything else is not part of the abstract working tree)
+				if e.Type()&os.ModeSymlink != 0 {
+					if fi, err := os.Stat(full); err != nil || !fi.Mode().IsRegular() {
+						continue
+					}
+				}
 				b, err := os.ReadFile(full)
 				if err != nil {
 					b = nil
